@@ -66,4 +66,12 @@ theorem wsub_total_lt {B P left : Nat} (hP : P < B) (h1 : left ≤ 2 ^ P) :
 theorem wsub_of_le {B a b : Nat} (hab : b ≤ a) (ha : a < 2 ^ B) : wsub B a b = a - b := by
   rw [wsub_eq ha (by omega), if_pos hab]
 
+theorem getD_of_lt {α : Type} {l : List α} {i : Nat} {d : α} (h : i < l.length) :
+    l.getD i d = l[i] := by
+  simp [List.getD, h]
+
+theorem getElem?_of_lt {α : Type} {l : List α} {i : Nat} {d : α} (h : i < l.length) :
+    l[i]? = some (l.getD i d) := by
+  simp [List.getD, h]
+
 end CV.Cat
